@@ -25,4 +25,4 @@ Extraction "model.ml"
   component_add_point component_sub_point component_neg_point component_mul_point component_select_identity component_select_point
   assert_torsion_free_point assert_torsion_free_gates component_mul_generator_ext append_fixed_base_signed_digits
   fb_block doublings canonical_blk torsion_rows var_rows
-  ref_verify g1_decompress g1_mul g1_add g1_eqb g1_compress g1_lin wire_opening.
+  ref_discrepancy ref_verify g1_decompress g1_mul g1_add g1_eqb g1_compress g1_lin wire_opening.
